@@ -10,6 +10,8 @@ SPEC = {
              "equal between p and q except the derived ones (mc/derived.hpp: lengths, checksums, sizes; next-protocol tags only compared when an "
              "unrecognised non-empty payload follows); payload bytes equal (empty payload == none; link-layer minimum-size padding libtins appended may "
              "reappear as trailing zero bytes); and serialize(q) == y byte for byte when the innermost payload is non-empty. "
+             "The two parses run over heap blocks pre-filled with different bytes (0xa5 for p, 0x3c for q, through the replaced operator new), so a member "
+             "a parser leaves uninitialised makes a getter differ between p and q instead of reading the same left-over twice. "
              "distinct_nontrivial = distinct (entry point, layer/size structure) among accepted inputs; distinct_views = distinct innermost-layer views."),
     "claim": "Every accepted input within two deviations of a seed is round-tripped and compared field by field through the generated getter table.",
     "note": "Trusted: the derived-field table (DESIGN appendix A), sanitizers. Root IP packets with source 0.0.0.0 are skipped (host routing table).",
